@@ -2,7 +2,7 @@
 (* populations for C10 (plain family: reference graphs incl. self loops, cycles, duplicates, forward references, *)
 (* complex instances) and for C11 (inverse family: set-valued / subtype referrer / inherited / single-valued /   *)
 (* two inverse attributes); references through the inverted attribute, through another attribute, twice.         *)
-EXTENDS Integers, Sequences, FiniteSets, TLC, Json
+EXTENDS Lazy, TLC, Json
 CONSTANTS Family,   \* "plain" | "inv"
           Deep
 I(i, t, x, y) == [id |-> i, ty |-> t, a |-> x, b |-> y]
@@ -17,7 +17,7 @@ Plain ==
         fwd \in (IF Deep THEN BOOLEAN ELSE {FALSE}) } : ids \in IdSets}
 SetValued ==
   { <<I(1, t1, <<>>, <<>>), I(2, "inode", <<>>, <<>>), I(3, h1, x1, y1), I(4, "iholder", x2, y2)>> :
-      t1 \in {"inode", "isubnode"}, h1 \in {"iholder", "isub"},
+      t1 \in {"inode", "isubnode", "isubsub"}, h1 \in {"iholder", "isub"},
       x1 \in {<<>>, <<1>>, <<2>>, <<1, 2>>, <<1, 1>>}, y1 \in Opt({1}),
       x2 \in {<<>>, <<1>>, <<2>>, <<1, 2>>, <<1, 1>>}, y2 \in Opt({1}) }
 Single ==
@@ -27,8 +27,17 @@ Two ==
   { <<I(1, "itwo", <<>>, <<>>), I(2, "itwo", <<>>, <<>>), I(3, "ipair", <<t>>, y), I(4, "ipair", <<u>>, z)>> :
       t \in {1, 2}, u \in {1, 2}, y \in Opt({1, 2}), z \in Opt({1}) }
 Pops == IF Family = "plain" THEN Plain ELSE SetValued \cup Single \cup Two
+(* every population in one spelling picked by a hash of its shape; a probe subset (and, when Deep, every        *)
+(* population) in every layout; string forms rotate with the layout                                            *)
+RECURSIVE Weight(_, _)
+Weight(q, i) == IF i > Len(q) THEN 0 ELSE q[i].id * i + 3 * Len(q[i].a) + 5 * Len(q[i].b) + (IF q[i].ty \in {"cx", "isub", "isubnode"} THEN 7 ELSE 0) + Weight(q, i + 1)
+LayOf(q) == Layouts[(Weight(q, 1) % Len(Layouts)) + 1]
+StrOf(q, k) == StrForms[((Weight(q, 1) + k) % Len(StrForms)) + 1]
+Probe(q) == \E i \in 1..Len(q) : Len(q[i].a) = 2 /\ q[i].a[1] # q[i].a[2] /\ Len(q[i].b) = 1
+Cases == {[pop |-> q, lay |-> LayOf(q), str |-> StrOf(q, 0)] : q \in Pops}
+         \cup {[pop |-> q, lay |-> Layouts[k], str |-> StrOf(q, k)] : q \in {r \in Pops : Deep \/ Probe(r)}, k \in 1..Len(Layouts)}
 VARIABLE p
-Init == p \in Pops
+Init == p \in Cases
 Next == UNCHANGED p
 Emit == PrintT("@@CASE " \o ToJson(p))
 ====
